@@ -18,6 +18,8 @@ package main
 // Failures that are listed defects are reported with r.Known(key, …); everything else is r.Fail.
 
 import (
+	ethereumkeeper "github.com/KiraCore/sekai/x/ethereum/keeper"
+	ethereumtypes "github.com/KiraCore/sekai/x/ethereum/types"
 	simapp "github.com/KiraCore/sekai/app"
 	recoverykeeper "github.com/KiraCore/sekai/x/recovery/keeper"
 	recoverytypes "github.com/KiraCore/sekai/x/recovery/types"
@@ -1106,6 +1108,38 @@ func (h *c17) rotate(old, nw, payer int) string {
 	return res
 }
 
+// relayForged: account `relayer` hands the x/ethereum module a relayed Ethereum transaction that it signed with its OWN key
+// but whose embedded bank send names `victim` as the sender. The module must refuse it: `victim` signed nothing (and, when
+// it is guarded, its coins leave only through an approved custody transfer). Executed on the module's msg server in a
+// block of its own; the model is not told - every account must look as before.
+func (h *c17) relayForged(relayer, victim, to int, amt int64) {
+	w := h.w
+	pre := h.snapshot()
+	var err error
+	br := w.Block(nil, BlockOpts{Mid: func(ctx sdk.Context) {
+		err = withCache(ctx, func(c sdk.Context) error {
+			msg := w.RelayMsg(relayer, relayer, banktypes.NewMsgSend(w.addrs[victim], w.addrs[to], ukex(amt)))
+			_, e := ethereumkeeper.NewMsgServerImpl(w.app.EthereumKeeper, w.app.CustomGovKeeper, w.app.BankKeeper).Relay(sdk.WrapSDKContext(c), msg.(*ethereumtypes.MsgRelay))
+			return e
+		})
+	}})
+	if br.Panicked != nil {
+		h.r.Fail("C17/block/panic", fmt.Sprintf("relay block panicked in %s: %v", br.Phase, br.Panicked), h.replay())
+		return
+	}
+	w.ApplyUpdates(br.Updates)
+	post := h.snapshot()
+	h.r.Mark(fmt.Sprintf("relay by %d of an Ethereum transaction signed by %d whose bank send names %d as sender", relayer, relayer, victim))
+	for i := 0; i < c17NAcc; i++ {
+		h.op(fmt.Sprintf("custody obs %d", i), post[i].str)
+	}
+	h.r.Count("relay-forged:" + map[bool]string{true: "accepted", false: "refused"}[err == nil])
+	h.r.Case(fmt.Sprintf("relay-forged/%d/%d/%v", relayer, victim, err == nil), true)
+	if err == nil || pre[victim].str != post[victim].str {
+		h.r.Fail("C17/relay/coins-of-a-non-signer-moved", fmt.Sprintf("MsgRelay sent by account %d with an Ethereum transaction signed by its own key moved %d ukex out of account %d (guarded: %v), which signed nothing (err=%v)", relayer, amt, victim, c17Guarded(pre[victim]), err), h.replay())
+	}
+}
+
 // rotationStrand: a guarded account with a pending transfer and one of two approvals is rotated to a new address (its
 // owner proves the recovery secret). "Each custodian counts once": the custodian who approved before the rotation must
 // not be counted again afterwards - under the old or the new address -, and the coins leave only once both custodians
@@ -1748,6 +1782,17 @@ func runC17(r *Rec) {
 	r.Extra["rule"] = "one case = one signed transaction through the real ante chain and message servers (1 per block), compared with the Lean model on the result class and on the full custody dump of all 10 accounts; non-trivial = all (every transaction is followed by the complete dump); distinct by (op line, result)"
 	h.witnesses()
 	h.rotationStrand()
+	{
+		// relayed Ethereum transactions naming somebody else as sender: a guarded account and an unguarded one
+		h.newEpisode("relay naming another account as sender")
+		h.doTx(1, nil, &cmsg{kind: "create", en: true, mode: 100, old: 0, newK: "H1", next: "~", target: "~"})
+		ac := mk("addcust", c17K(1, "H1", "~", "~"))
+		ac.add = []int{4, 5}
+		h.doTx(1, nil, ac)
+		h.relayForged(7, 1, 7, 900000)
+		h.relayForged(7, 2, 8, 5000)
+		h.relayForged(4, 1, 3, 1)
+	}
 	h.keyMatrix()
 	h.policyMatrix()
 	h.thresholdMatrix()
